@@ -32,6 +32,9 @@ var unique = map[tree.Path]indexer{}
 
 func init() {
 	unique["networks.*.labels"] = keyValueIndexer
+	unique["volumes.*.labels"] = keyValueIndexer
+	unique["secrets.*.labels"] = keyValueIndexer
+	unique["configs.*.labels"] = keyValueIndexer
 	unique["networks.*.ipam.options"] = keyValueIndexer
 	unique["services.*.annotations"] = keyValueIndexer
 	unique["services.*.build.args"] = keyValueIndexer
